@@ -89,6 +89,30 @@ pub fn main(args: &[String]) {
         ppcmp::materialise(&root, &c);
         cases.push(c);
     }
+    // an `include named through a macro whose text carries trivia around the file name, or whose expansion goes through further macros
+    // with comments in their text: the file that is read must not depend on strip_comments
+    {
+        let pres = ["", " ", "/* c */ ", "/**/", "/* a */ /* b */ ", "\\\n ", "/* c */\\\n"];
+        let posts = ["", " ", " /* c */", " // c", "/**/"];
+        let mut k = 0usize;
+        for pre in pres.iter() { for post in posts.iter() { for form in 0..3usize {
+            let dir = format!("m{}", k); k += 1;
+            let inc = format!("{}/f.svh", dir);
+            let lit = format!("\"{}\"", inc);
+            let top = match form {
+                0 => format!("`define INC {}{}{}\n`include `INC\nx /* t */ y\n", pre, lit, post),
+                1 => format!("`define FN {}\n`define INC {}`FN{}\n`include `INC\nx\n", lit, pre, post),
+                _ => format!("`define INC(f) {}f{}\n`include `INC({})\nz\n", pre, post, lit),
+            };
+            let mut c = gen_pp::Case { dir: dir.clone(), ..Default::default() };
+            c.top = format!("{}/top.sv", dir);
+            c.files.push((inc, Some("hello /* k */ w\n`define FROM_INC 1\n".into())));
+            c.files.push((c.top.clone(), Some(top)));
+            c.flags.push("macro-named-include-trivia");
+            ppcmp::materialise(&root, &c);
+            cases.push(c);
+        } } }
+    }
     std::env::set_current_dir(&root).unwrap();
     let cases = std::sync::Arc::new(cases);
     let c2 = cases.clone();
